@@ -338,12 +338,14 @@ class RFCOMM_Frame:
             raise InvalidPacketError('fcs mismatch')
 
         # The CRC must also match the header that was actually received (the frame
-        # object computes its own length field from the information it was given)
-        if frame_type != FrameType.UIH:
+        # object computes its own address and length fields from what it was given)
+        if frame_type == FrameType.UIH:
+            header_size = 2
+        else:
             header_size = 3 if data[2] & 0x01 else 4
-            if compute_fcs(data[:header_size]) != fcs:
-                logger.warning('FCS mismatch with the received length field')
-                raise InvalidPacketError('fcs mismatch')
+        if compute_fcs(data[:header_size]) != fcs:
+            logger.warning('FCS mismatch with the received header')
+            raise InvalidPacketError('fcs mismatch')
 
         return frame
 
